@@ -3,6 +3,9 @@
 import json, subprocess
 ALL = ["C%02d" % i for i in range(1, 21)]
 CLAIMED = {
+ "C16": dict(level="exploration", technique="offline checker over timestamped Add/Rem/suspend/fire event logs of the running cron loop, structural invariant walks (Timeline under its lock; crolt jobs/time buckets key for key, also across close/reopen), overlay-injected in-package monitor for the Bolt-backed service",
+   text="Directed and random operation sequences run against the real firing loop of the in-memory cron (race detector on) and against the Bolt-backed service with harness-driven ticks; the logs are checked for early fires, fires after an early removal, exactly-once one-shots with canary-judged bounded progress, recurring jobs not ahead of their occurrences, and the pending structures are checked for sortedness, unique ids and bucket agreement after every operation and restart.",
+   note="Bounded progress uses generous grace and a canary; crolt's due time is the time in the job's own key; crash points inside one bolt transaction are bolt's guarantee.", ref="§5 C16"),
  "C15": dict(level="exploration", technique="runtime monitor with a recording Cronner (harness implementation of cron.Cronner) and a model of live scheduled rules: registrations compared after every step, ticks delivered for every current and former registration; canary-judged timed scenario on the real built-in cron",
    text="Generated histories over three locations sharing rule ids (add / overwrite scheduled<->ordinary<->fact / remove / cascade / clear / reload, persistent and ephemeral cron, both states) are checked step by step: registered == live scheduled rules per location, a tick runs exactly its rule in its own location, one-shots run once and vanish, stale ticks run nothing; the built-in cron is exercised with +1s rules of one id in two locations.",
    note="The recorder keys by (location, id) to report what the engine asked for; stale registrations after cascade deletes and after expiry are open findings keyed by step kind.", ref="§5 C15"),
